@@ -107,6 +107,9 @@ pub enum RStep {
     Seek(SeekFrom),
     /// `Read::read_to_end` on the same handle (whatever is left from the current position)
     ReadToEnd,
+    /// `Read::read_exact` with a buffer of that size (an error if fewer bytes are left; what the
+    /// buffer and the position look like afterwards is unspecified, so the script ends there)
+    ReadExact(usize),
 }
 
 /// Offsets at the edge of the integer ranges (compared on everything except OS file handles,
@@ -141,6 +144,7 @@ pub fn reader_steps(len: i64) -> Vec<RStep> {
         RStep::Seek(SeekFrom::End(0)),
         RStep::Seek(SeekFrom::End(2)),
         RStep::ReadToEnd,
+        RStep::ReadExact(2),
     ]
 }
 
@@ -188,6 +192,13 @@ fn do_rstep<T: Read + Seek + ?Sized>(h: &mut T, s: &RStep) -> StepRes {
             Ok(pos) => StepRes::Pos(pos),
             Err(_) => StepRes::Err,
         },
+        RStep::ReadExact(n) => {
+            let mut buf = vec![0u8; *n];
+            match h.read_exact(&mut buf) {
+                Ok(()) => StepRes::Read(buf),
+                Err(_) => StepRes::Err,
+            }
+        }
         RStep::ReadToEnd => {
             let mut v = Vec::new();
             match h.read_to_end(&mut v) {
@@ -238,6 +249,7 @@ fn step_name(s: &RStep) -> String {
             }
         ),
         RStep::ReadToEnd => "read_to_end".into(),
+        RStep::ReadExact(n) => format!("read_exact({})", n),
     }
 }
 
@@ -315,6 +327,10 @@ pub fn reader_scripts(
                         });
                         break;
                     }
+                    // after a failed read_exact buffer and position are unspecified: the script ends
+                    if matches!(s, RStep::ReadExact(_)) && want == StepRes::Err {
+                        break;
+                    }
                 }
             }
             (nsteps, classes, vio)
@@ -356,6 +372,10 @@ pub fn dedupe(v: Vec<Violation>) -> Vec<Violation> {
 #[derive(Clone, Copy, Debug, PartialEq)]
 pub enum WStep {
     Write(&'static [u8]),
+    /// `Write::write_all` (a provided method a backend may override)
+    WriteAll(&'static [u8]),
+    /// `write!(h, "{}", 7)`: `Write::write_fmt`
+    WriteFmt,
     Seek(SeekFrom),
     Flush,
 }
@@ -365,6 +385,8 @@ pub fn writer_steps() -> Vec<WStep> {
         WStep::Write(b"x"),
         WStep::Write(b"yz"),
         WStep::Write(b""),
+        WStep::WriteAll(b"pq"),
+        WStep::WriteFmt,
         WStep::Seek(SeekFrom::Start(0)),
         WStep::Seek(SeekFrom::Start(1)),
         WStep::Seek(SeekFrom::Start(5)),
@@ -384,6 +406,14 @@ fn do_wstep<T: Write + Seek + ?Sized>(h: &mut T, s: &WStep) -> StepRes {
             Ok(n) => StepRes::Wrote(n),
             Err(_) => StepRes::Err,
         },
+        WStep::WriteAll(b) => match h.write_all(b) {
+            Ok(()) => StepRes::Unit,
+            Err(_) => StepRes::Err,
+        },
+        WStep::WriteFmt => match write!(h, "{}", 7) {
+            Ok(()) => StepRes::Unit,
+            Err(_) => StepRes::Err,
+        },
         WStep::Seek(p) => match h.seek(*p) {
             Ok(pos) => StepRes::Pos(pos),
             Err(_) => StepRes::Err,
@@ -398,9 +428,15 @@ fn do_wstep<T: Write + Seek + ?Sized>(h: &mut T, s: &WStep) -> StepRes {
     }
 }
 
+pub fn do_wstep_pub<T: Write + Seek + ?Sized>(h: &mut T, s: &WStep) -> StepRes {
+    do_wstep(h, s)
+}
+
 fn wstep_name(s: &WStep) -> String {
     match s {
         WStep::Write(b) => format!("write({})", b.len()),
+        WStep::WriteAll(b) => format!("write_all({})", b.len()),
+        WStep::WriteFmt => "write_fmt".into(),
         WStep::Seek(SeekFrom::Start(_)) => "seek(Start)".into(),
         WStep::Seek(SeekFrom::Current(o)) => {
             format!("seek(Current{})", if *o < 0 { "-" } else { "+" })
